@@ -50,46 +50,28 @@ def free (v : Vol) : Nat := v.freeUnits.length
 
 def range (lo hi : Nat) : List Nat := (List.range (hi - lo)).map (· + lo)
 
-/-- no duplicates, decidable and fast enough for the driver (quadratic on small lists is fine;
-uses a sorted copy for long ones) -/
-def nodupB (xs : List Nat) : Bool :=
-  let s := xs.mergeSort (· ≤ ·)
-  (s.zip s.tail).all (fun p => p.1 != p.2)
+/-- named well-formedness conditions (C03).  Quadratic but directly decidable propositions, so that the
+theorems can use them without a soundness proof of a clever checker. -/
+def wfConds (v : Vol) : List (String × Bool) :=
+  [ ("owned-unit-out-of-range", v.allOwned.all (fun u => decide (v.lo ≤ u) && decide (u < v.hi))),
+    ("unit-owned-twice", decide ((v.allOwned ++ v.sys).Nodup)),
+    ("owned-unit-marked-free", v.allOwned.all (fun u => !v.freeUnits.contains u)),
+    ("system-unit-marked-free", v.sys.all (fun u => !v.freeUnits.contains u)),
+    ("free-list-malformed", decide (v.freeUnits.Nodup) && v.freeUnits.all (fun u => decide (v.lo ≤ u) && decide (u < v.hi))),
+    ("duplicate-path", decide ((v.files.map (·.path)).Nodup)),
+    ("chunk-indices-not-ascending", v.files.all (fun f => decide ((f.chunks.map (·.1)).Pairwise (· < ·)))) ]
 
-/-- linear merge test on two ascending lists: no common element -/
-def disjointSorted : List Nat → List Nat → Nat → Bool
-  | [], _, _ => true
-  | _, [], _ => true
-  | _, _, 0 => true
-  | x :: xs, y :: ys, fuel + 1 =>
-    if x == y then false
-    else if x < y then disjointSorted xs (y :: ys) fuel
-    else disjointSorted (x :: xs) ys fuel
-
-def disjointB (xs ys : List Nat) : Bool :=
-  disjointSorted (xs.mergeSort (· ≤ ·)) (ys.mergeSort (· ≤ ·)) (xs.length + ys.length + 1)
-
-def pathsUnique (v : Vol) : Bool :=
-  let ps := v.files.map (·.path)
-  ps.all (fun p => (ps.filter (· == p)).length == 1)
+def wfB (v : Vol) : Bool := v.wfConds.all (·.2)
 
 /-- C03: structural soundness.  Returns the first reason it is violated. -/
-def check (v : Vol) : Except String Unit := do
-  let own := v.allOwned
-  if !(own.all (fun u => v.lo ≤ u ∧ u < v.hi)) then throw "owned-unit-out-of-range"
-  if !(nodupB (own ++ v.sys)) then throw "unit-owned-twice"
-  if !(disjointB own v.freeUnits) then throw "owned-unit-marked-free"
-  if !(disjointB v.sys v.freeUnits) then throw "system-unit-marked-free"
-  if !(pathsUnique v) then throw "duplicate-path"
-  if !(v.files.all (fun f => (f.chunks.map (·.1)).Pairwise (· < ·))) then throw "chunk-indices-not-ascending"
-  pure ()
+def check (v : Vol) : Except String Unit :=
+  match v.wfConds.find? (fun c => !c.2) with
+  | some c => .error c.1
+  | none => .ok ()
 
-def wfB (v : Vol) : Bool := match v.check with | .ok _ => true | .error _ => false
-
-/-- C04 (no leak): everything not reachable and not system is marked free -/
+/-- C04 (no leak): every unit of the volume is reachable from a directory, a system unit, or marked free -/
 def noLeak (v : Vol) : Bool :=
-  let all := ((v.allOwned ++ v.sys ++ v.freeUnits).filter (fun u => v.lo ≤ u ∧ u < v.hi)).mergeSort (· ≤ ·)
-  all.eraseDups.length == v.hi - v.lo
+  (range v.lo v.hi).all (fun u => v.allOwned.contains u || v.sys.contains u || v.freeUnits.contains u)
 
 def lookup (v : Vol) (p : List Nat) : Option FileRec := v.files.find? (·.path == p)
 
